@@ -11,6 +11,7 @@ import (
 	"os"
 	"os/exec"
 	"path/filepath"
+	"slices"
 	"strconv"
 	"strings"
 	"testing"
@@ -303,7 +304,7 @@ func buildIR(src string, mode ir.BuilderMode) (pkg *ir.Package, err error) {
 	if err != nil {
 		return nil, err
 	}
-	prog := ir.NewProgram(fset, mode|ir.SanityCheckFunctions)
+	prog := ir.NewProgram(fset, mode)
 	pkg = prog.CreatePackage(tpkg, files, info, true)
 	pkg.Build()
 	return pkg, nil
@@ -352,7 +353,34 @@ func TestPrograms(t *testing.T) {
 		}
 		seen[p.name] = true
 	}
-	want := toolchainResults(t, programs)
+	all := slices.Clone(programs)
+	for _, d := range divergences {
+		all = append(all, d.testProgram)
+	}
+	want := toolchainResults(t, all)
+	for _, d := range divergences {
+		t.Run(d.name, func(t *testing.T) {
+			w := want[d.name]
+			same := 0
+			for _, cfg := range buildConfigs {
+				got, err := interpret(d.src+prelude, cfg.mode)
+				if err != nil {
+					t.Errorf("%s: %v", cfg.name, err)
+					continue
+				}
+				if got != d.interp[cfg.name] {
+					t.Errorf("%s: got %s, want %s (toolchain: %s)", cfg.name, got, d.interp[cfg.name], w)
+				}
+				if got == w {
+					same++
+				}
+			}
+			if same == len(buildConfigs) {
+				t.Errorf("all configurations agree with the toolchain (%s): no longer a divergence", w)
+			}
+			t.Logf("toolchain: %s", w)
+		})
+	}
 	for _, p := range programs {
 		t.Run(p.name, func(t *testing.T) {
 			w, ok := want[p.name]
@@ -362,6 +390,7 @@ func TestPrograms(t *testing.T) {
 			if w == "" {
 				t.Errorf("toolchain result is empty")
 			}
+			t.Logf("toolchain: %s", w)
 			for _, cfg := range buildConfigs {
 				got, err := interpret(p.src+prelude, cfg.mode)
 				if err != nil {
@@ -517,9 +546,9 @@ func TestAPI(t *testing.T) {
 	if err != nil {
 		t.Fatal(err)
 	}
-	res, _, _ = call("Sum", arg)
-	if res[0] != 5 {
-		t.Errorf("Sum([]any): %v", res)
+	res, p, err = call("Sum", arg)
+	if err != nil || p != nil || res[0] != 5 {
+		t.Fatalf("Sum([]any): %v %v %v", res, p, err)
 	}
 	if _, err := FromGo(tP, "x"); !errors.Is(err, ErrUnsupported) {
 		t.Errorf("FromGo(bad) = %v", err)
